@@ -223,9 +223,10 @@ def gen(rng, idx, tier):
         else:
             suffixes = {"plain": [""], "suffix": rng.choice([[".LTR"], [".RTL"], [".LTR", ".RTL"],
                                                             [".alt"], ["", ".RTL"], ["", ".LTR"],
-                                                            [".2.RTL"]]),
+                                                            [".2.RTL"], [".alt.LTR"], [".2.LTR"],
+                                                            [".alt.LTR", ".alt.RTL"]]),
                         "mixed": rng.choice([["", ".LTR", ".RTL"], ["", ".alt"], ["", ".RTL"],
-                                             [".LTR", ".alt"]])}[mode]
+                                             [".LTR", ".alt"], ["", ".1.LTR"]])}[mode]
             for sfx in suffixes:
                 chosen = rng.sample(cands, min(len(cands), rng.randint(2, 7)))
                 for j, n in enumerate(chosen):
